@@ -4,6 +4,7 @@ Oracle (O6): over all source manifests read with the independent reader, per pat
 earliest non-failed digest per format; snapshot of the source tree (I2); O4 for the two destination files.
 Observed: records of the packinglist_*.mhl, listing of the destination, exit codes of flatten and verify -pl."""
 import os
+import shutil
 
 from lxml import etree
 
@@ -106,6 +107,34 @@ def run_case(cs):
     for f in list(altered):
         with open(os.path.join(root, f), "wb") as fh:
             fh.write(original[f])
+    kind_swapped = False
+    if rng.random() < 0.08 and not altered:
+        # a path changes its kind: a recorded file makes room for a folder of the same name (or a recorded folder for a
+        # file), sealed once more; the earlier file records stay part of "every file path ever recorded"
+        cand = sorted(f for f in recorded if os.path.isfile(os.path.join(root, f)) and not os.path.islink(os.path.join(root, f)))
+        dcand = sorted(x for x, v in world.read_tree(root).items() if v is None and any(r2.startswith(x + "/") for r2 in recorded))
+        if cand and (not dcand or rng.random() < 0.6):
+            f = rng.choice(cand)
+            os.remove(os.path.join(root, f))
+            os.makedirs(os.path.join(root, f))
+            with open(os.path.join(root, f, "inner.bin"), "wb") as fh:
+                fh.write(b"inner" + rng.randbytes(3))
+            steps.append(f"file {f!r} replaced by a folder")
+            kind_swapped = True
+        elif dcand:
+            x = rng.choice(dcand)
+            shutil.rmtree(os.path.join(root, x))
+            with open(os.path.join(root, x), "wb") as fh:
+                fh.write(b"was a folder" + rng.randbytes(3))
+            steps.append(f"folder {x!r} replaced by a file")
+            kind_swapped = True
+        if kind_swapped:
+            r = drive.run("create", [root] + world.fmt_args(world.gen_formats(rng)))
+            steps.append(f"g+ after kind swap => {r.exit}")
+            cs.count("paths_that_changed_kind")
+            if r.internal or r.exit not in (0, 10, 11):
+                cs.skip("seal-unexpected-exit")
+                return
     # ---- O6 over the source manifests
     ms, _ = hist.load_history(root, ".")
     want = {}
@@ -195,6 +224,8 @@ def run_case(cs):
                     {"kind": "flatten-digest", "count": len(gl), "format_unexpected": f not in want[p], "history_had_failed": had_failed},
                     {**ctx, "path": p, "format": f, "got": gl, "want": want[p].get(f)},
                 )
+    if kind_swapped:
+        return  # files are gone from the tree: what verify -pl has to say about that is C03's business
     # ---- verify -pl
     ondisk = sorted(k for k, v in world.read_tree(root).items() if v is not None)
     all_recorded = all(f in want for f in ondisk)
